@@ -361,7 +361,14 @@ func (s *State) Import(state types.AppState, version string) error {
 		s.Candidates.SetDeletedCandidates(state.DeletedCandidates)
 	}
 
-	s.Candidates.RecalculateStakesV2(uint64(s.height))
+	// A genesis is imported before the first block of the chain. Stakes that the recalculation unbonds (candidates
+	// ranked beyond the limit) must be frozen relative to the chain's initial height: frozen at height 0 they would
+	// be due in the past and never be returned.
+	recalculateHeight := uint64(s.height)
+	if s.InitialVersion > s.height {
+		recalculateHeight = uint64(s.InitialVersion)
+	}
+	s.Candidates.RecalculateStakesV2(recalculateHeight)
 
 	for _, w := range state.Waitlist {
 		value := helpers.StringToBigInt(w.Value)
